@@ -144,11 +144,16 @@ def run_cases(cases, variant="plain", binary=None, cpu_s=None, as_bytes=None,
                 break
             # the process died (or was killed by the watchdog) during `started`
             with open(errp, errors="replace") as ef:
-                tail = ef.read()[-3000:]
+                whole = ef.read()
+                tail = whole[-3000:]
+                head = whole[:600]
+                import re as _re
+                m = _re.search(r"at /repo/crates/([^:\s]+)", whole)
+                first_repo_frame = m.group(1) if m else ""
             if started is None and not timed_out and rc == 0:
                 break
             if started is not None:
-                died = {"stderr_tail": tail}
+                died = {"stderr_tail": tail, "stderr_head": head, "first_repo_frame": first_repo_frame}
                 if timed_out:
                     died["watchdog"] = True
                 elif rc is not None and rc < 0:
